@@ -371,6 +371,34 @@ def _termination_idiom(ctx, fn, w: ast.While):
                     if ok_all:
                         return True, f"visited-set work-list: {popped} is added to {seen_name} on every path that grows {work}, and seen items are skipped"
                     return False, f"{work} can grow on a path that does not record {popped} as seen"
+            # (a') marked when pushed: every growth is `work.append(x)` on the `x not in S` side of a test, next to
+            # `S.add(x)` - each push puts a new element into S, which only holds names of the (finite) graph
+            def _push_gated(gcall) -> bool:
+                if gcall.func.attr not in ("append", "add", "appendleft") or len(gcall.args) != 1:
+                    return False
+                x = A.unparse(gcall.args[0])
+                child = A.enclosing_stmt(gcall)
+                for anc in A.ancestors(child):
+                    if isinstance(anc, ast.If):
+                        t = anc.test
+                        side = None
+                        if isinstance(t, ast.Compare) and len(t.ops) == 1 and A.unparse(t.left) == x:
+                            if isinstance(t.ops[0], ast.NotIn) and any(child is y for b_ in anc.body for y in ast.walk(b_)):
+                                side = anc.body
+                            elif isinstance(t.ops[0], ast.In) and any(child is y for b_ in anc.orelse for y in ast.walk(b_)):
+                                side = anc.orelse
+                        if side is not None:
+                            S = A.unparse(t.comparators[0])
+                            if S != work and any(isinstance(c, ast.Call) and isinstance(c.func, ast.Attribute) and c.func.attr == "add" and A.unparse(c.func.value) == S and c.args and A.unparse(c.args[0]) == x for b_ in side for c in ast.walk(b_)):
+                                # S is never shrunk in the loop
+                                if not any(isinstance(c, ast.Call) and isinstance(c.func, ast.Attribute) and c.func.attr in ("remove", "discard", "pop", "clear", "difference_update") and A.unparse(c.func.value) == S for c in ast.walk(w)):
+                                    return True
+                    if anc is w:
+                        break
+                return False
+
+            if grows and all(_push_gated(g_) for g_ in grows):
+                return True, f"marked-when-pushed work-list: every push onto {work} is of an element that the same branch adds to a set it was not in"
             return False, f"work-list {work} grows without a visited set gating re-processing"
     # (b) monotone fix-point flag
     if isinstance(test, ast.Name):
